@@ -1538,7 +1538,7 @@ Lemma parse_regions_inv img nr frs : forall done pol rs pol',
 Proof.
   induction frs as [|fr rest IH]; intros done pol rs pol' LEN OKS H.
   - cbn [parse_regions] in H. injection H as <- _. rewrite !count_nil.
-    split; [constructor|]. split; destruct (_ <=? _); lia.
+    split; [constructor|]. split; [destruct (zlen done <=? 1); lia|destruct (zlen done <=? 0); lia].
   - pose proof (zlen_nonneg done) as DN.
     assert (A : done ++ fr :: rest = (done ++ [fr]) ++ rest) by (rewrite <- app_assoc; reflexivity).
     assert (ZL : zlen (done ++ [fr]) = zlen done + 1) by (rewrite zlen_app, zlen_cons, zlen_nil; lia).
@@ -1556,11 +1556,11 @@ Proof.
               count is_bios rs0 <= (if zlen done <=? 0 then 1 else 0)).
     { intros pol0 rs0 pol0' H0. destruct (REC _ _ _ H0) as (R1 & R2 & R3).
       split; auto. split.
-      - destruct (zlen done + 1 <=? 1), (zlen done <=? 1); lia.
-      - destruct (zlen done + 1 <=? 0), (zlen done <=? 0); lia. }
+      - destruct (zlen done + 1 <=? 1) eqn:?, (zlen done <=? 1) eqn:?; lia.
+      - destruct (zlen done + 1 <=? 0) eqn:?, (zlen done <=? 0) eqn:?; lia. }
     cbn [parse_regions] in H.
     destruct (negb (nr =? 0) && (nr <=? zlen done)).
-    { injection H as <- _. rewrite !count_nil. split; [constructor|]. split; destruct (_ <=? _); lia. }
+    { injection H as <- _. rewrite !count_nil. split; [constructor|]. split; [destruct (zlen done <=? 1); lia|destruct (zlen done <=? 0); lia]. }
     destruct (fr_valid fr) eqn:V; cbn [negb] in H; [|eapply SK; eauto].
     destruct (zlen img <=? base_off fr) eqn:B1; [eapply SK; eauto|].
     destruct (zlen img <? end_off fr) eqn:B2; [eapply SK; eauto|].
@@ -1592,7 +1592,8 @@ Proof.
           assert (X : exists fp fso, me_region (sub (base_off fr) (end_off fr - base_off fr) img) =
                         RME (sub (base_off fr) (end_off fr - base_off fr) img) fp fso /\
                         match fp with Some es => fso = fso_of es | None => fso = 0 end).
-          { unfold me_region. destruct (parse_fpt _); eauto. }
+          { unfold me_region. destruct (parse_fpt _) as [es|];
+              [exists (Some es), (fso_of es)|exists None, 0]; split; reflexivity. }
           destruct X as (fp & fso & -> & FS). cbn [is_me is_bios]. split; [|split; reflexivity].
           unfold declared_ok. cbn [region_fr region_buf]. change ifd_type_me with 1. rewrite <- Z1, SLOT.
           repeat split; auto; try lia.
@@ -1607,6 +1608,301 @@ Proof.
     destruct D as (D & DM & DB).
     split; [constructor; auto|]. rewrite !count_cons, DM, DB.
     split.
-    + destruct (zlen done =? 1) eqn:E1, (zlen done + 1 <=? 1), (zlen done <=? 1); lia.
-    + destruct (zlen done =? 0) eqn:E0, (zlen done + 1 <=? 0), (zlen done <=? 0); lia.
+    + destruct (zlen done =? 1) eqn:E1, (zlen done + 1 <=? 1) eqn:?, (zlen done <=? 1) eqn:?; lia.
+    + destruct (zlen done =? 0) eqn:E0, (zlen done + 1 <=? 0) eqn:?, (zlen done <=? 0) eqn:?; lia.
+Qed.
+
+(* ------------------------------------------------------------------ *)
+(* parsing: gap filling                                                *)
+(* ------------------------------------------------------------------ *)
+
+Lemma sub_glue (b : bytes) a l1 l2 : 0 <= a -> 0 <= l1 -> 0 <= l2 ->
+  sub a l1 b ++ sub (a + l1) l2 b = sub a (l1 + l2) b.
+Proof. intros. unfold sub. apply window_glue; auto. Qed.
+
+Lemma gap_region_eq img a b : 1 <= a < b -> b * 4096 <= zlen img -> b < 65536 ->
+  gap_region img (a * 4096) (b * 4096) =
+  Ok (RGap (mkFR a (b - 1)) (sub (a * 4096) (b * 4096 - a * 4096) img)).
+Proof.
+  intros H1 H2 H3. unfold gap_region. rewrite slice_ok by lia. cbn [of_opt bind].
+  consts. rewrite !Z.div_mul by lia.
+  rewrite (Z.mod_small a) by lia. rewrite (Z.mod_small b) by lia. rewrite (Z.mod_small (b - 1)) by lia.
+  reflexivity.
+Qed.
+
+Lemma gap_region_ok sl img a b : 1 <= a < b -> b * 4096 <= zlen img -> b < 65536 ->
+  region_ok sl (RGap (mkFR a (b - 1)) (sub (a * 4096) (b * 4096 - a * 4096) img)) = true.
+Proof.
+  intros H1 H2 H3. unfold region_ok, fr_ok, end_off, base_off. cbn [region_fr region_buf is_me fr_base fr_limit].
+  rewrite zlen_sub by lia. consts. lia.
+Qed.
+
+Lemma fill_gaps_inv img sl rs : forall a out,
+  zlen img < 65536 * 4096 -> (exists s, zlen img = s * 4096) ->
+  Forall (declared_ok img sl) rs -> 1 <= a -> a * 4096 <= zlen img ->
+  fill_gaps img (zlen img) sl rs (a * 4096) = Ok out ->
+  forallb (region_ok sl) out = true /\
+  chain sl out (a * 4096) = Some (zlen img) /\
+  concat (map region_buf out) = sub (a * 4096) (zlen img - a * 4096) img /\
+  count is_me out = count is_me rs /\ count is_bios out = count is_bios rs.
+Proof.
+  induction rs as [|r rs IH]; intros a out LT [s SZ] F A1 A2 H.
+  - cbn [fill_gaps] in H. destruct (a * 4096 =? zlen img) eqn:E; cbn [negb] in H.
+    + injection H as <-. cbn [forallb chain map concat]. rewrite !count_nil.
+      repeat split; auto. { f_equal. lia. }
+      replace (zlen img - a * 4096) with 0 by lia. reflexivity.
+    + rewrite SZ in H. rewrite gap_region_eq in H by lia. cbn [bind] in H. injection H as <-.
+      cbn [forallb chain map concat region_fr region_buf]. rewrite gap_region_ok by lia.
+      unfold base_off, end_off. cbn [fr_base fr_limit]. consts.
+      replace (a * 4096 =? a * 4096) with true by lia.
+      rewrite app_nil_r, !count_cons, !count_nil. cbn [is_me is_bios].
+      repeat split; auto. { f_equal. lia. } f_equal. lia.
+  - inversion F as [|r0 rs0 D F']; subst r0 rs0.
+    destruct D as (RO & RB & VL & B1 & B2 & NG).
+    cbn [fill_gaps] in H.
+    set (fr := region_fr sl r) in *.
+    pose proof (region_ok_spec _ _ RO) as (FO & _). fold fr in FO. apply fr_ok_spec in FO.
+    destruct (base_off fr <? a * 4096) eqn:OV; [discriminate|].
+    apply bind_ok in H as (pre & Hp & H). apply bind_ok in H as (more & Hm & H). injection H as <-.
+    assert (E1 : 1 <= fr_limit fr + 1) by lia.
+    assert (E2 : (fr_limit fr + 1) * 4096 <= zlen img) by (unfold end_off in B2; consts; lia).
+    unfold end_off in Hm. change ifd_block with 4096 in Hm.
+    destruct (IH _ _ LT (ex_intro _ s SZ) F' E1 E2 Hm) as (I1 & I2 & I3 & I4 & I5).
+    assert (PRE : forallb (region_ok sl) pre = true /\
+                  chain sl pre (a * 4096) = Some (base_off fr) /\
+                  concat (map region_buf pre) = sub (a * 4096) (base_off fr - a * 4096) img /\
+                  count is_me pre = 0 /\ count is_bios pre = 0).
+    { destruct (a * 4096 <? base_off fr) eqn:G.
+      - unfold base_off in *. change ifd_block with 4096 in *.
+        rewrite gap_region_eq in Hp by lia. cbn [bind] in Hp. injection Hp as <-.
+        cbn [forallb chain map concat region_fr region_buf]. rewrite gap_region_ok by lia.
+        unfold base_off, end_off. cbn [fr_base fr_limit]. consts.
+        replace (a * 4096 =? a * 4096) with true by lia.
+        rewrite app_nil_r, !count_cons, !count_nil. cbn [is_me is_bios].
+        repeat split; auto. f_equal. lia.
+      - injection Hp as <-. cbn [forallb chain map concat]. rewrite !count_nil.
+        repeat split; auto. { f_equal. lia. }
+        replace (base_off fr - a * 4096) with 0 by lia. reflexivity. }
+    destruct PRE as (P1 & P2 & P3 & P4 & P5).
+    split; [|split; [|split]].
+    + rewrite forallb_app. cbn [forallb]. rewrite P1, RO, I1. reflexivity.
+    + rewrite chain_app, P2. cbn [chain]. fold fr. rewrite Z.eqb_refl.
+      unfold end_off. change ifd_block with 4096. exact I2.
+    + rewrite map_app, concat_app. cbn [map concat]. rewrite P3, RB, I3. fold fr.
+      unfold end_off, base_off in *. change ifd_block with 4096 in *.
+      replace (fr_base fr * 4096) with (a * 4096 + (fr_base fr * 4096 - a * 4096)) at 2 by lia.
+      rewrite app_assoc. rewrite sub_glue by lia.
+      replace ((fr_limit fr + 1) * 4096) with
+        (a * 4096 + (fr_base fr * 4096 - a * 4096 + ((fr_limit fr + 1) * 4096 - fr_base fr * 4096))) at 2 by lia.
+      rewrite sub_glue by lia. f_equal. lia.
+    + rewrite !count_app, !count_cons, P4, P5, I4, I5. lia.
+Qed.
+
+(* ------------------------------------------------------------------ *)
+(* parsing: NewFlashImage                                              *)
+(* ------------------------------------------------------------------ *)
+
+Definition sections_disjoint (t : tree) : Prop :=
+  t_ms t + ifd_master_size <= t_rs t \/ t_rs t + ifd_region_section_size <= t_ms t.
+
+Definition desc_bounds (t : tree) : Prop :=
+  0 <= t_dms t /\ t_dms t + ifd_dmap_size <= ifd_desc_len /\
+  0 <= t_rs t /\ t_rs t + ifd_region_section_size <= ifd_desc_len /\
+  0 <= t_ms t /\ t_ms t + ifd_master_size <= ifd_desc_len /\
+  t_dmap t = sub (t_dms t) ifd_dmap_size (t_ifd t) /\
+  t_master t = sub (t_ms t) ifd_master_size (t_ifd t).
+
+Lemma wf_desc_of t : desc_bounds t -> sections_disjoint t -> wf_desc t.
+Proof. intros (A & B & C & D & E & F & G & H) J. unfold wf_desc. repeat split; auto. Qed.
+
+(* images the theorems speak about: bytes, whole 4 KiB blocks, below 256 MiB (the reach of a
+   16-bit block index) *)
+Definition good_img (img : bytes) : Prop :=
+  bytes_ok img = true /\ (exists s, zlen img = s * 4096) /\ zlen img < 65536 * 4096.
+
+Lemma find_signature_ok b dms : find_signature b = Ok dms -> dms = 20 \/ dms = 4.
+Proof.
+  unfold find_signature. destruct (zlen b <? 20); [discriminate|].
+  destruct (bytes_eqb (sub 16 4 b) ifd_signature); [intros [= <-]; auto|].
+  destruct (bytes_eqb (sub 0 4 b) ifd_signature); [intros [= <-]; auto|discriminate].
+Qed.
+
+Lemma zfirstn_zfirstn {A} a b (l : list A) : 0 <= a <= b -> zfirstn a (zfirstn b l) = zfirstn a l.
+Proof. intros H. unfold zfirstn. rewrite firstn_firstn. f_equal. lia. Qed.
+
+Lemma region_section_roundtrip sec : bytes_ok sec = true -> zlen sec = 64 ->
+  sec = zfirstn 2 sec ++ le_enc 2 (rd 2 2 sec) ++ enc_slots (dec_slots 15 (zskipn 4 sec)).
+Proof.
+  intros OK L. rewrite (le_enc_rd 2 2 sec OK) by lia.
+  rewrite enc_dec_slots by (try apply bytes_ok_zskipn; auto; rewrite zlen_zskipn; lia).
+  change (4 * Z.of_nat 15) with 60.
+  replace 60 with (zlen (zskipn 4 sec)) by (rewrite zlen_zskipn; lia). rewrite zfirstn_all.
+  change (Z.of_nat 2) with 2. apply (split3 sec 2 2); lia.
+Qed.
+
+Lemma parse_flash_inv img pol t pol' : good_img img -> parse_flash img pol = Ok (t, pol') ->
+  wf_tree t /\ t_ifd t = zfirstn ifd_desc_len img /\ body t = zskipn ifd_desc_len img /\
+  t_size t = zlen img /\ desc_slots t /\ desc_bounds t.
+Proof.
+  intros (OK & SZ & LT) H. unfold parse_flash in H.
+  destruct (zlen img <? ifd_desc_len) eqn:TS; [discriminate|].
+  set (ifd := sub 0 ifd_desc_len img) in *.
+  assert (LI : zlen ifd = 4096) by (unfold ifd; apply zlen_sub; consts; lia).
+  assert (OKI : bytes_ok ifd = true) by (apply bytes_ok_sub; auto).
+  apply bind_ok in H as (dms & FS & H). apply find_signature_ok in FS.
+  set (rs := rd (dms + ifd_dmap_off_region_base) 1 ifd * 16) in *.
+  set (ms := rd (dms + ifd_dmap_off_master_base) 1 ifd * 16) in *.
+  destruct ((ifd_desc_len <=? rs) || (ifd_desc_len <=? rs + ifd_region_section_size)) eqn:OOB; [discriminate|].
+  set (sec := sub rs ifd_region_section_size ifd) in *.
+  set (sl := dec_slots (Z.to_nat ifd_nslots) (zskipn ifd_rsec_off_slots sec)) in *.
+  destruct (fr_valid (slot sl ifd_type_bios)); cbn [negb] in H; [|discriminate].
+  apply bind_ok in H as ([rs0 pol1] & PR & H). apply bind_ok in H as (filled & FG & H).
+  cbn [fst snd] in *. injection H as <- <-.
+  pose proof (rd1_bound (dms + ifd_dmap_off_region_base) ifd OKI) as RB.
+  pose proof (rd1_bound (dms + ifd_dmap_off_master_base) ifd OKI) as MB.
+  assert (RS : 0 <= rs /\ rs + 64 <= 4096) by (unfold rs in *; consts; lia).
+  assert (LS : zlen sec = 64) by (unfold sec; apply zlen_sub; consts; lia).
+  assert (OKS : bytes_ok sec = true) by (apply bytes_ok_sub; auto).
+  assert (LSL : length sl = 15%nat) by apply dec_slots_length.
+  assert (OSL : forallb fr_ok sl = true) by (apply dec_slots_ok, bytes_ok_zskipn; auto).
+  destruct (parse_regions_inv img _ sl [] pol rs0 pol1 LSL OSL PR) as (D & CM & CB).
+  cbn [app] in D. change (zlen (@nil fregion)) with 0 in CM, CB. cbn in CM, CB.
+  set (sorted := sort_by (fun r => fr_base (region_fr sl r)) rs0) in *.
+  assert (DS : Forall (declared_ok img sl) sorted) by (apply sort_Forall; auto).
+  destruct (fill_gaps_inv img sl sorted 1 filled LT SZ DS ltac:(lia) ltac:(consts; lia) FG)
+    as (F1 & F2 & F3 & F4 & F5).
+  unfold sorted in F4, F5. rewrite sort_count in F4, F5.
+  split; [|split; [|split; [|split; [|split]]]].
+  - unfold wf_tree. cbn [t_ifd t_slots t_regions t_size].
+    repeat split; auto; try lia.
+  - reflexivity.
+  - unfold body. cbn [t_regions]. rewrite F3. change (1 * 4096) with 4096. consts.
+    unfold sub. rewrite <- (zlen_zskipn 4096 img) by lia. apply zfirstn_all.
+  - reflexivity.
+  - unfold desc_slots. cbn [t_rs t_ifd t_erase t_slots]. fold sec.
+    rewrite (region_section_roundtrip sec OKS LS) at 1.
+    f_equal. unfold sec, sub. change ifd_region_section_size with 64.
+    apply zfirstn_zfirstn. lia.
+  - unfold desc_bounds. cbn [t_dms t_rs t_ms t_dmap t_master t_ifd].
+    fold rs ms. unfold ms in *. consts.
+    repeat split; auto; try lia.
+Qed.
+
+Lemma zlen_assemble_ifd_b t : desc_bounds t -> zlen (t_ifd t) = ifd_desc_len ->
+  length (t_slots t) = 15%nat -> zlen (assemble_ifd t) = ifd_desc_len.
+Proof.
+  intros (D1 & D2 & R1 & R2 & M1 & M2 & ED & EM) L LS. unfold assemble_ifd. consts.
+  assert (LD : zlen (t_dmap t) = 16) by (rewrite ED; apply zlen_sub; lia).
+  assert (LM : zlen (t_master t) = 12) by (rewrite EM; apply zlen_sub; lia).
+  pose proof (zlen_enc_region_section (t_erase t) (t_slots t) LS) as LR.
+  assert (L1 : zlen (splice (t_dms t) (t_dmap t) (t_ifd t)) = 4096) by (rewrite zlen_splice; lia).
+  assert (L2 : zlen (splice (t_rs t) (enc_region_section (t_erase t) (t_slots t))
+                       (splice (t_dms t) (t_dmap t) (t_ifd t))) = 4096) by (rewrite zlen_splice; lia).
+  rewrite zlen_splice; lia.
+Qed.
+
+(* ------------------------------------------------------------------ *)
+(* image-level statements                                              *)
+(* ------------------------------------------------------------------ *)
+
+Lemma parse_flash_of img t pol : parse img = Ok (RootFlash t, pol) ->
+  parse_flash img erase_polarity_poison = Ok (t, pol).
+Proof.
+  unfold parse. destruct (find_signature img).
+  - destruct (parse_flash img erase_polarity_poison) as [[t0 p0]| | |]; simpl; try discriminate.
+    intros [= <- <-]. reflexivity.
+  - destruct (bios_region img erase_polarity_poison) as [[e0 p0]| | |]; simpl; discriminate.
+  - destruct (bios_region img erase_polarity_poison) as [[e0 p0]| | |]; simpl; discriminate.
+  - destruct (bios_region img erase_polarity_poison) as [[e0 p0]| | |]; simpl; discriminate.
+Qed.
+
+Lemma parse_inv img t pol : good_img img -> parse img = Ok (RootFlash t, pol) ->
+  wf_tree t /\ t_ifd t = zfirstn ifd_desc_len img /\ body t = zskipn ifd_desc_len img /\
+  t_size t = zlen img /\ desc_slots t /\ desc_bounds t.
+Proof. intros G H. apply parse_flash_of in H. eapply parse_flash_inv; eauto. Qed.
+
+Lemma wf_len15 t : wf_tree t -> length (t_slots t) = 15%nat.
+Proof. intros (_ & L & _). exact L. Qed.
+
+Lemma good_len img : good_img img -> 0 <= ifd_desc_len -> True.
+Proof. auto. Qed.
+
+(* the saved image of any tree obtained from [img] by tighten_me steps *)
+Lemma save_split pol t out : wf_tree t -> desc_bounds t -> save pol t = Ok out ->
+  zfirstn ifd_desc_len out = assemble_ifd t /\ zskipn ifd_desc_len out = body t /\
+  zlen out = ifd_desc_len + zlen (body t).
+Proof.
+  intros W B H. pose proof (save_ok_body _ _ _ W H) as ->.
+  pose proof W as (L & _).
+  pose proof (zlen_assemble_ifd_b t B L (wf_len15 _ W)) as LA.
+  rewrite <- LA. rewrite zfirstn_app_exact, zskipn_app_exact, zlen_app. auto.
+Qed.
+
+Lemma tightened_bounds t f0 f1 rest pre mb fp fso els bl post :
+  desc_bounds t -> desc_bounds (tightened t f0 f1 rest pre mb fp fso els bl post).
+Proof. intros H. exact H. Qed.
+
+Lemma tm_bounds pol t t' : wf_tree t -> desc_bounds t -> tm pol t = Ok t' -> desc_bounds t'.
+Proof.
+  intros W B H. destruct (tm_inv _ _ _ W H) as (f0 & f1 & rest & pre & mb & fp & fso & els & bl & post & TF & ->).
+  exact B.
+Qed.
+
+Lemma tm_body pol t t' : wf_tree t -> tm pol t = Ok t' -> body t' = body t.
+Proof.
+  intros W H. destruct (tm_inv _ _ _ W H) as (f0 & f1 & rest & pre & mb & fp & fso & els & bl & post & TF & ->).
+  apply body_tightened. apply TF.
+Qed.
+
+Lemma img_split img : good_img img -> ifd_desc_len <= zlen img ->
+  zlen (zskipn ifd_desc_len img) = zlen img - ifd_desc_len.
+Proof. intros _ H. apply zlen_zskipn. consts. lia. Qed.
+
+(* tm_bytes_outside_descriptor_unchanged + tm_size *)
+Lemma c12_bytes_outside img t pol t' out : good_img img -> parse img = Ok (RootFlash t, pol) ->
+  tm pol t = Ok t' -> save pol t' = Ok out ->
+  zskipn ifd_desc_len out = zskipn ifd_desc_len img /\ zlen out = zlen img.
+Proof.
+  intros G P T S. destruct (parse_inv _ _ _ G P) as (W & EI & EB & ES & DS & DB).
+  pose proof (tm_wf _ _ _ W T) as W'. pose proof (tm_bounds _ _ _ W DB T) as DB'.
+  destruct (save_split _ _ _ W' DB' S) as (S1 & S2 & S3).
+  rewrite (tm_body _ _ _ W T) in *. rewrite EB in *. split; auto.
+  assert (ifd_desc_len <= zlen img).
+  { pose proof W as (L & _). rewrite EI in L. unfold zfirstn, zlen in L. rewrite firstn_length in L.
+    unfold zlen. consts. lia. }
+  rewrite S3, zlen_zskipn by (consts; lia). lia.
+Qed.
+
+(* saving without tighten_me, for comparison: only the blank field can change *)
+Lemma c12_unedited img t pol out : good_img img -> parse img = Ok (RootFlash t, pol) ->
+  sections_disjoint t -> blank_zero t -> save pol t = Ok out -> out = img.
+Proof.
+  intros G P DJ BZ S. destruct (parse_inv _ _ _ G P) as (W & EI & EB & ES & DS & DB).
+  pose proof (save_ok_body _ _ _ W S) as ->.
+  pose proof W as (L & _).
+  rewrite (assemble_ifd_unedited t (wf_desc_of _ DB DJ) DS BZ L (wf_len15 _ W)).
+  rewrite EI, EB. apply zfirstn_zskipn.
+Qed.
+
+(* tm_descriptor_delta *)
+Lemma c12_descriptor_delta img t pol t' : good_img img -> parse img = Ok (RootFlash t, pol) ->
+  tm pol t = Ok t' -> sections_disjoint t -> blank_zero t ->
+  exists a mid z,
+    zlen a = t_rs t + 4 /\ zlen mid = 4 /\
+    zfirstn ifd_desc_len img =
+      a ++ le_enc 2 (fr_base (bios_fr t)) ++ mid ++ le_enc 2 (fr_limit (me_fr t)) ++ z /\
+    forall out, save pol t' = Ok out ->
+      zfirstn ifd_desc_len out =
+      a ++ le_enc 2 (fr_base (bios_fr t')) ++ mid ++ le_enc 2 (fr_limit (me_fr t')) ++ z.
+Proof.
+  intros G P T DJ BZ. destruct (parse_inv _ _ _ G P) as (W & EI & EB & ES & DS & DB).
+  pose proof (tm_wf _ _ _ W T) as W'. pose proof (tm_bounds _ _ _ W DB T) as DB'.
+  destruct (tm_inv _ _ _ W T) as (f0 & f1 & rest & pre & mb & fp & fso & els & bl & post & TF & ->).
+  pose proof W as (L & _).
+  destruct (descriptor_delta t f0 f1 rest pre mb fp fso els bl post (wf_desc_of _ DB DJ) DS BZ L
+              (tf_slots _ _ _ _ _ _ _ _ _ _ _ _ TF) (wf_len15 _ W)) as (a & mid & z & A1 & A2 & A3 & A4).
+  exists a, mid, z. split; auto. split; auto. split.
+  - rewrite <- EI, A3. unfold bios_fr, me_fr. rewrite (tf_slots _ _ _ _ _ _ _ _ _ _ _ _ TF), slot_0, slot_1.
+    reflexivity.
+  - intros out S. destruct (save_split _ _ _ W' DB' S) as (S1 & _). rewrite S1. exact A4.
 Qed.
